@@ -217,7 +217,8 @@ type Seam struct {
 	NextWrite   func() *WriteFault
 	Readers     []*Reader
 	Writers     []*Writer
-	Commits     []string // binary form of every link the inner committer was invoked with
+	OnOpen      func(lc linking.LinkContext, l datamodel.Link) // observer of every read-open (before any fault)
+	Commits     []string                                       // binary form of every link the inner committer was invoked with
 	CommitTries int
 	Opens       []string
 }
@@ -230,6 +231,9 @@ func (sm *Seam) Wrap(lsys *linking.LinkSystem) {
 		lsys.StorageReadOpener = func(lc linking.LinkContext, l datamodel.Link) (io.Reader, error) {
 			sm.S.Yield("seam.openread")
 			sm.Opens = append(sm.Opens, l.Binary())
+			if sm.OnOpen != nil {
+				sm.OnOpen(lc, l)
+			}
 			var f *ReadFault
 			if sm.NextRead != nil {
 				f = sm.NextRead(l)
